@@ -385,14 +385,12 @@ Definition parse_with_sigil (s0 : str) : outcome unit :=
     | Some (first_raw, second_raw) =>
         match decode_utf8 first_raw, decode_utf8 second_raw with
         | Some first, Some second =>
-            match first, second with
-            | f :: _, 36 :: _ =>
-                if (f =? 33) || (f =? 35) then
+            match hd_error first, hd_error second with
+            | Some f, Some g =>
+                if ((f =? 33) || (f =? 35)) && (g =? 36) then
                   obind (forget (C10.Model.validate_room_or_alias_id first)) (fun _ =>
                   forget (C10.Model.validate_event_id second))
-                else Err 0
-            | 36 :: _, g :: _ =>
-                if (g =? 33) || (g =? 35) then
+                else if (f =? 36) && ((g =? 33) || (g =? 35)) then
                   obind (forget (C10.Model.validate_room_or_alias_id second)) (fun _ =>
                   forget (C10.Model.validate_event_id first))
                 else Err 0
